@@ -126,7 +126,9 @@ fn carrier_specs(thorough: bool) -> Vec<UniSpec> {
     UniSpec {
       full: true,
       lang: l,
-      sources: vec!["[a, [b, 1], foo(a)]".into(), "foo(bar(a), a, [a])".into(), "foo(bar(b), /*c*/ a)".into()],
+      // (last text: nodes that span several lines and hold `a` / `b` alone on a line - a regex is tried on the WHOLE text
+      // of a node, `^` and `$` are its two ends)
+      sources: vec!["[a, [b, 1], foo(a)]".into(), "foo(bar(a), a, [a])".into(), "foo(bar(b), /*c*/ a)".into(), "foo(\na\n, [\nb\n])".into()],
       patterns: vec!["bar($A)".into(), "[$$$A]".into(), "a".into(), "foo($$$A)".into(), "$F($X)".into()],
       kinds: vec!["array".into(), "call_expression".into(), "identifier".into(), "arguments".into(), "comment".into()],
       regex: vec![vec!["a".into(), "b".into()]],
